@@ -219,6 +219,11 @@ fn rand_term(fmt: &str, rng: &mut StdRng, depth: usize, ascii_safe: &mut bool) -
         return atom(rng, ascii_safe);
     }
     let mut kids = |rng: &mut StdRng, lo: usize, hi: usize, ascii_safe: &mut bool| -> Vec<serde_json::Value> {
+        // now and then a wide node (counts around powers of two), made of atoms
+        if hi >= 4 && rng.gen_bool(0.03) {
+            let n = *[9usize, 16, 17, 32, 33, 34, 64, 65, 70].choose(rng).unwrap();
+            return (0..n).map(|_| rand_term(fmt, rng, 0, ascii_safe)).collect();
+        }
         let n = rng.gen_range(lo..=hi);
         (0..n).map(|_| rand_term(fmt, rng, depth - 1, ascii_safe)).collect()
     };
